@@ -445,4 +445,191 @@ theorem sinv_runAll (g : G) (as : List Action) (hg : Good g) (h : SInv g) :
     simp only [runAll]
     exact ih _ (good_react g a hg) (sinv_react g a hg.fixed h)
 
+/-! ## `next_done()` never answers None to a caller that acquired a permit -/
+
+def NoNoneObs (o : List Obs) : Prop := ∀ k, Obs.nextDone k none ∉ o
+
+theorem nn_nil : NoNoneObs [] := by intro k; simp
+
+theorem nn_append {a b : List Obs} (ha : NoNoneObs a) (hb : NoNoneObs b) : NoNoneObs (a ++ b) := by
+  intro k hm
+  simp only [List.mem_append] at hm
+  rcases hm with hm | hm
+  · exact ha k hm
+  · exact hb k hm
+
+theorem nn_release (g : G) (h : SRelPre g) : NoNoneObs g.release.2 := by
+  unfold G.release
+  cases hw : g.waiters with
+  | nil => exact nn_nil
+  | cons w ws =>
+    simp only []
+    cases w with
+    | joiner => exact nn_nil
+    | consumer k =>
+      unfold G.wake
+      simp only []
+      cases hd : g.doneq with
+      | nil => have := h.sem; rw [hd] at this; simp at this
+      | cons t rest => intro k'; simp
+
+theorem srelpre_finish (g : G) (i : Nat) (o : Outcome) (h : SInv g) : SRelPre
+    { (g.setMem i fun m => { m with status := .done, outcome := o }) with
+      pending := (g.setMem i fun m => { m with status := .done, outcome := o }).pending.filter (· != i),
+      doneq := (g.setMem i fun m => { m with status := .done, outcome := o }).doneq ++ [i],
+      log := (g.setMem i fun m => { m with status := .done, outcome := o }).log ++ [i] } := by
+  refine ⟨?_, h.jw, h.jcount, h.bhp⟩
+  have := h.sem
+  simp only [G.setMem, List.length_append, List.length_cons, List.length_nil] at this ⊢
+  simp only [hpNat] at this ⊢
+  omega
+
+theorem nn_finishMem (g : G) (i : Nat) (o : Outcome) (h : SInv g) :
+    NoNoneObs (g.finishMem i o).2 := by
+  unfold G.finishMem
+  cases hf : g.find i with
+  | none => exact nn_nil
+  | some m =>
+    simp only []
+    split
+    · exact nn_nil
+    · split
+      · exact nn_nil
+      · exact nn_release _ (srelpre_finish g i o h)
+
+theorem nn_deliverCancel (g : G) (i : Nat) (h : SInv g) : NoNoneObs (g.deliverCancel i).2 := by
+  unfold G.deliverCancel
+  cases hf : g.find i with
+  | none => exact nn_nil
+  | some m =>
+    simp only []
+    cases hs : m.status with
+    | done => exact nn_nil
+    | canc => exact nn_finishMem g i .cancelled h
+    | run =>
+      simp only []
+      have h1 : SStep g (g.setMem i fun m => { m with status := .canc }) :=
+        sinv_frame h rfl rfl rfl rfl
+      have h2 := sinv_addChildren (g.setMem i fun m => { m with status := .canc }) m.children h1.1
+      generalize (g.setMem i fun m => { m with status := .canc }).addChildren m.children = r at h2 ⊢
+      obtain ⟨g2, refused⟩ := r
+      cases refused with
+      | nil => intro k; simp
+      | cons c cs =>
+        simp only []
+        refine nn_append (a := [Obs.cancelReceived i, Obs.spawnRefused c.id]) ?_
+          (nn_finishMem g2 i .exc h2.1)
+        intro k; simp
+
+theorem nn_deliverCancels (g : G) (l : List Nat) (h : SInv g) :
+    NoNoneObs (g.deliverCancels l).2 := by
+  induction l generalizing g with
+  | nil => exact nn_nil
+  | cons i is ih =>
+    rw [deliverCancels_cons]
+    exact nn_append (nn_deliverCancel g i h) (ih _ (sinv_deliverCancel g i h).1)
+
+theorem nn_jstep {g : G} {perm : List Nat} {j : Joiner} {g' : G} {o : List Obs} (h : SInv g)
+    (hs : JStep g perm j g' o) : NoNoneObs o := by
+  cases hs with
+  | crSweep _ _ => exact nn_deliverCancels g _ h
+  | finSweep _ _ _ => exact nn_deliverCancels g _ h
+  | pop _ _ => unfold G.joinerPop; cases g.doneq <;> exact nn_nil
+  | finExit _ _ _ => intro k; simp
+  | crDone _ _ _ _ => exact nn_nil
+  | nowait _ _ _ => exact nn_nil
+  | nothingLeft _ _ _ _ _ => exact nn_nil
+  | park _ _ _ _ _ => exact nn_nil
+  | acquire _ _ _ _ _ _ => exact nn_nil
+  | finClear _ _ _ _ => exact nn_nil
+
+theorem nn_runJoiner (perm : List Nat) : ∀ (fuel : Nat) (g : G), g.fixed = true → SInv g →
+    NoNoneObs (g.runJoiner perm fuel).2
+  | 0, _, _, _ => by intro k; simp [G.runJoiner]
+  | fuel + 1, g, hfix, h => by
+    unfold G.runJoiner
+    cases hs : g.joinerStep perm with
+    | none => exact nn_nil
+    | some r =>
+      obtain ⟨g1, o1⟩ := r
+      obtain ⟨j, hj, hb, hstep⟩ := joinerStep_inv hfix hs
+      have hfix1 : g1.fixed = true := by
+        have := (tstep_jstep hstep).fixed_eq; simp only [G.core] at this; rw [this, hfix]
+      exact nn_append (nn_jstep h hstep)
+        (nn_runJoiner perm fuel g1 hfix1 (sinv_jstep hj hb h hstep))
+
+/-- the environment's action itself reports `nextDone k none` only for a `next_done()` call on
+a group with nothing queued and nothing pending -/
+theorem nn_apply (g : G) (a : Action) (h : SInv g) (k : Nat)
+    (hm : Obs.nextDone k none ∈ (g.apply a).2) :
+    (∃ perm, a = .nextDone k perm) ∧ g.doneq = [] ∧ g.pending = [] := by
+  unfold G.apply at hm
+  cases a with
+  | spawn i d ch => simp only [] at hm; cases ha : g.add i d ch <;> simp [ha] at hm
+  | finish i o p =>
+    simp only [] at hm; split at hm
+    · exact absurd hm (nn_finishMem g i o h k)
+    · simp at hm
+  | extCancel i p =>
+    simp only [] at hm; split at hm
+    · exact absurd hm (nn_deliverCancel g i h k)
+    · simp at hm
+  | finCancel i p =>
+    simp only [] at hm; split at hm
+    · exact absurd hm (nn_finishMem g i _ h k)
+    · simp at hm
+  | join p => simp only [] at hm; split at hm <;> simp at hm
+  | ctxExit r p => simp only [] at hm; split at hm <;> simp at hm
+  | cancelJoiner p =>
+    simp only [] at hm
+    cases hj : g.joiner with
+    | none => simp [hj] at hm
+    | some j =>
+      simp only [hj] at hm
+      cases hp : j.phase with
+      | exited => simp [hp] at hm
+      | fin => simp [hp] at hm
+      | cancelrem => simp [hp] at hm
+      | next =>
+        simp only [hp] at hm
+        cases hperm : j.hasPermit with
+        | false => simp [hperm] at hm
+        | true =>
+          simp only [hperm, ↓reduceIte] at hm
+          exfalso
+          have hsem := h.sem
+          simp only [hpNat, hj, hperm, ↓reduceIte] at hsem
+          unfold G.release at hm
+          cases hfw : g.waiters.filter (· != Waiter.joiner) with
+          | nil => simp [hfw] at hm
+          | cons w ws =>
+            simp only [hfw] at hm
+            cases w with
+            | joiner => simp [G.wake] at hm
+            | consumer k' =>
+              simp only [G.wake] at hm
+              cases hd : g.doneq with
+              | nil => rw [hd] at hsem; simp at hsem
+              | cons t rest => simp [hd] at hm
+  | nextDone k' p =>
+    simp only [] at hm
+    split at hm
+    · rename_i he
+      simp only [Bool.and_eq_true, List.isEmpty_iff] at he
+      simp only [List.mem_singleton, Obs.nextDone.injEq, and_true] at hm
+      exact ⟨⟨p, by rw [hm]⟩, he.1, he.2⟩
+    · split at hm
+      · simp at hm
+      · rename_i h1 h2
+        exfalso
+        have h2' : g.sem ≠ 0 ∧ g.waiters = [] := by simpa [List.isEmpty_iff] using h2
+        have hsem := h.sem
+        unfold G.wake at hm
+        cases hd : g.doneq with
+        | nil =>
+          rw [hd] at hsem
+          simp at hsem
+          exact h2'.1 hsem.1
+        | cons t rest => simp [hd] at hm
+
 end Aiorpcx.C09
